@@ -6,6 +6,7 @@ mod prog;
 mod registry;
 mod render;
 mod replay;
+mod special;
 
 use serde_json::json;
 
@@ -81,7 +82,7 @@ fn main() {
             let samples: usize = arg(&args, "--samples").and_then(|x| x.parse().ok()).unwrap_or(5);
             let seed: u64 = arg(&args, "--seed").and_then(|x| x.parse().ok()).unwrap_or(1);
             let k: f64 = arg(&args, "--k").and_then(|x| x.parse().ok()).unwrap_or(64.0);
-            let cases = prog::pow_cases();
+            let cases = if arg(&args, "--what").as_deref() == Some("special") { prog::special_cases() } else { prog::pow_cases() };
             let r = float::load(&files).and_then(|t| prog::op_sweep(&t, &cases, samples, seed, k, arg(&args, "--types").as_deref()));
             match r {
                 Ok(v) => println!("{v}"),
@@ -90,6 +91,25 @@ fn main() {
                     std::process::exit(2);
                 }
             }
+        }
+        "float-special" => {
+            let files: Vec<String> = arg(&args, "--tables").expect("--tables").split(',').map(|s| s.to_string()).collect();
+            let samples: usize = arg(&args, "--samples").and_then(|x| x.parse().ok()).unwrap_or(2);
+            let seed: u64 = arg(&args, "--seed").and_then(|x| x.parse().ok()).unwrap_or(1);
+            let what = arg(&args, "--what").unwrap_or("sph".into());
+            let r = float::load(&files).and_then(|t| special::load_series(&files).and_then(|s| special::special_sweep(&t, &s, &what, samples, seed, arg(&args, "--types").as_deref())));
+            match r {
+                Ok(v) => println!("{v}"),
+                Err(e) => {
+                    eprintln!("tool error: {e}");
+                    std::process::exit(2);
+                }
+            }
+        }
+        "bessel-parity" => {
+            let seed: u64 = arg(&args, "--seed").and_then(|x| x.parse().ok()).unwrap_or(1);
+            let samples: usize = arg(&args, "--samples").and_then(|x| x.parse().ok()).unwrap_or(300);
+            println!("{}", special::bessel_parity(seed, samples));
         }
         "float-prog" => {
             let files: Vec<String> = arg(&args, "--tables").expect("--tables").split(',').map(|s| s.to_string()).collect();
